@@ -5,7 +5,10 @@ R-C03-1  every chunk is verified: the core-verifier call sits in a loop that run
 R-C03-2  exactly one result per member, in order: every path through one iteration of the per-proof loop pushes exactly one
          result; the loop walks proofs/statements in order; chunk results are appended in chunk order and returned
 R-C03-3  refusal guards: empty / mismatched inputs; every member agrees with member 0 on generators, bit length, extension
-         degree (statement and len(d1)); vector generators are compared (prefix) with the largest member
+         degree (statement and len(d1)); vector generators are compared (prefix) with the selected largest member -- or, when every
+         BulletproofGens is built by its constructor and its vectors are private and never written elsewhere, agree by construction
+         (the comparison is then redundant; what is still reported is a condition on the vectors that is *not* a prefix comparison,
+         because that can refuse a batch whose members differ only in capacity)
 R-C03-5  (= R-C04-3/designated) data of the first member absorbed into every member's transcript is compared across members by the
          consistency function: a member is verified in a batch against the same data as alone
 R-C03-6  per-member independence: the per-proof loop carries no state from one member to the next except the gate's accumulators, the
